@@ -118,6 +118,19 @@ def run_shard(args):
             sites.append({"id": i, "op": "eq", "place": "loop", "old": "[" + ", ".join(str(100 + j) for j in range(n)) + "]", "obs": ["[" + ", ".join(str(100 + j) for j in range(n + rng.randint(0, 2))) + "]"], "edits": ["straddle"], "sig": "straddle"})
         style = rng.choice(["rec", "assert"])
         src, order = program.build(sites, style=style, tests=rng.randint(1, 3))
+        if rng.random() < 0.5:
+            # statements whose black layout depends on the (inferred) target versions: several context managers
+            # on a line that is too long, a call with * and ** arguments that has to be exploded
+            C["target_version_sensitive_files"] = C.get("target_version_sensitive_files", 0) + 1
+            pad = "x" * max(4, ll // 3)
+            src += (
+                "\n\nimport contextlib\n\n\ndef _collect_" + pad + "(*args, **kwargs):\n    return [*args, *kwargs]\n\n\n"
+                "def test_target_versions():\n"
+                f"    values_{pad} = [1, 2]\n    options_{pad} = {{'k': 1}}\n"
+                f"    with contextlib.nullcontext(11111) as first_manager_{pad}, contextlib.nullcontext(22222) as second_manager_{pad}:\n"
+                f"        assert [first_manager_{pad}, second_manager_{pad}] == snapshot([11111])\n"
+                f"    assert _collect_{pad}(*values_{pad}, **options_{pad}) == snapshot([1, 2, 'k', 'and a string that is replaced'])\n"
+            )
         clean = rng.random() < 0.7
         if clean:
             try:
